@@ -48,7 +48,7 @@ def python_half(ctx, py: PyRepo):
 def simultaneity(ctx, py: PyRepo):
     fn = py.method('Instantiate', 'instantiate', 'pattern')
     where = py.where('pattern', fn)
-    ev = PyEval()
+    ev = PyEval(resolver=PP.private_helper_resolver(py, 'Instantiate'))       # the two parts of the map may be built by private helpers
     rets = [p for p in ev.paths(fn) if p.end[0] == 'return']
     ctx.require(rets, 'Instantiate.instantiate has no returning path')
     for i, p in enumerate(rets):
